@@ -26,4 +26,8 @@ def families(tier, seed):
     # sender counter next to the ceiling
     for st in ((1 << 31) - 4, (1 << 31) - 2, (1 << 31) - 1, 0, 0x7ffffffe):
         scripts.append((f"incr-{st:x}", f"rdb_poke {gen.H(st)} | -\n" + "rdb_incr\n" * 6))
-    return [Family("rdb-leaf", scripts, monitor=gen.rdb_leaf_monitor)]
+    from lib import apigen
+    n = 10 if tier == "quick" else 120
+    api = [(f"rx-{k}", apigen.replay_history(rng, tier, rtcp=True)[0]) for k in range(n)]
+    return [Family("rdb-leaf", scripts, monitor=gen.rdb_leaf_monitor),
+            Family("srtcp-unprotect-histories", api, monitor=lambda s, c: apigen.replay_monitor(s, c, True))]
